@@ -12,13 +12,13 @@ def _id_event(ev):
 
 
 def run(tier):
-    focus = [("ids", gwfocus.ids, ["1.4", "2.2"], ["sync"], True)]
-    chk = gwcheck.GwCheck(PID, tier, PROJ, focus=focus, flavours=["sync"], persist=True, exts=("json", "pickle"),
+    focus = [("ids", gwfocus.ids, ["1.4", "2.2"], ["sync", "async"], True)]
+    chk = gwcheck.GwCheck(PID, tier, PROJ, focus=focus, flavours=["sync", "async"], persist=True, exts=("json", "pickle"),
                           mc_props=PROPS, mc_invs=INVS, mc_depth_quick=6, mc_depth_thorough=8, sim_depth=16,
                           profile={"idreq": 30, "pres": 22, "child": 6, "set": 6, "batt": 4, "garbage": 2, "invalid": 3,
                                    "req": 2, "wake": 3, "fwcfg": 1, "fwreq": 1},
                           gen_opts=lambda i: {"prefix": None, "tick_p": 0.08, "restart_p": 0.10},
-                          n_quick=160, nontrivial=_id_event)
+                          n_quick=90, nontrivial=_id_event)
     return chk.run()
 
 
